@@ -161,6 +161,36 @@ class RelationshipResolver:
         return None
 
 
+def as_collection(value: Any) -> Optional[List[Any]]:
+    """
+    The elements of a container that ``in`` can search (list, tuple, set, range, dict keys, ...).
+
+    :param value: A translated operand
+    :return: The elements as a list, or None if the operand is text, a column, or not iterable
+    """
+    if isinstance(value, (str, bytes)) or hasattr(value, "in_"):
+        return None
+    try:
+        return list(value)
+    except TypeError:
+        return None
+
+
+def membership(column: Any, values: List[Any]) -> Any:
+    """
+    ``column IN values`` with Python's meaning of a None element (NULL IN (..., NULL) is never true in SQL).
+
+    :param column: The column
+    :param values: The elements of the container
+    :return: SQLAlchemy expression
+    """
+    present = [value for value in values if value is not None]
+    expression = column.in_(present)
+    if len(present) != len(values):
+        expression = or_(column.is_(None), expression)
+    return expression
+
+
 @dataclass
 class OperatorMapper:
     """Maps EQL operators to SQLAlchemy expressions."""
@@ -207,10 +237,10 @@ class OperatorMapper:
         operator_name = operation.__name__
         is_negated = operator_name == "not_contains"
 
-        if isinstance(left, (list, tuple, set, frozenset)):
-            expression = right.in_(left)
-        elif isinstance(right, (list, tuple, set, frozenset)):
-            expression = left.in_(right)
+        if as_collection(left) is not None:
+            expression = membership(right, as_collection(left))
+        elif as_collection(right) is not None:
+            expression = membership(left, as_collection(right))
         elif isinstance(left, str) and not isinstance(right, str):
             expression = func.instr(literal(left), right) > 0
         elif isinstance(left, str) and isinstance(right, str):
@@ -709,12 +739,12 @@ class EQLTranslator:
             if not isinstance(values, list):
                 values = [values]
 
-            if len(values) == 1 and isinstance(values[0], (list, tuple, set, frozenset)):
-                values = list(values[0])
+            if len(values) == 1 and as_collection(values[0]) is not None:
+                values = as_collection(values[0])
 
             if len(values) != 1 or (values and not isinstance(values[0], str)):
                 column = self.translate_attribute(query.right)
-                expression = column.in_(values)
+                expression = membership(column, values)
                 return sa_not(expression) if is_negated else expression
 
         mapper = OperatorMapper()
